@@ -43,3 +43,8 @@ package gtids
 //@   loop 2 invariant norm: ivNorm(result) && (forall k int :: in_range(k, result) ==> result[k].Stop <= cur && result[k].Stop <= iv.Stop)
 //@   loop 3 invariant idx: 0 <= bi && bi <= len(b)
 //@   loop 3 invariant skipped: forall k int :: 0 <= k && k < bi ==> b[k].Stop <= cur && b[k].Stop < iv.Stop
+
+// ---- C20: the GTID sets mysync handles are the MySQL flavour -----------------------------------------------------------------
+//@ define isMysqlSet(g GTIDSet) = hastype(g, "*github.com/go-mysql-org/go-mysql/mysql.MysqlGTIDSet") && unbox(g, "*github.com/go-mysql-org/go-mysql/mysql.MysqlGTIDSet") != nil
+//@ func mysql/gtids.IsSplitBrained
+//@   requires flavour [safety]: isMysqlSet(slaveGtidSet) && isMysqlSet(masterGtidSet)
